@@ -11,7 +11,7 @@ from xh._untraced import untraced, concrete
 
 TARGETS = {n: "_config_parser.ConfigParser._init_config_parser/_check_for_duplicate_pairs/_TableFormSection.check_for_duplicate_table_forms, "
               "_potential_form_registry._build_potential_forms/_build_table_forms, _eam_potential_builder.EAM_Potential_Builder_FS._density_to_potential_form_dict"
-           for n in ("pair_keys3", "form_signatures3", "pair_keys", "density_keys_fs", "embed_keys", "form_signatures", "table_form_headers", "form_kinds", "added_duplicates")}
+           for n in ("pair_keys3", "form_signatures3", "pair_keys", "density_keys_fs", "embed_keys", "form_signatures", "table_form_headers", "form_kinds", "added_duplicates", "form_kinds_crowded")}
 
 SPECIES = "\n[Species]\nA.atomic_number : 1\nA.atomic_mass : 1.0\nB.atomic_number : 2\nB.atomic_mass : 2.0\n"
 HEAD = "[Tabulation]\ntarget : %s\ncutoff : 5.0\nnr : 6\ncutoff_rho : 5.0\nnrho : 6\n\n"
@@ -209,13 +209,21 @@ def table_form_headers(h1: int, h2: int) -> bool:
 KIND_NAMES = ["myform", "as.buck", "as.zero", "as.buck4", "as.exp_spline", "other"]
 
 
-def _kinds_ok(name, second_kind, table_first):
+def _kinds_text(name, second_kind, table_first, crowded=False):
+  table = "[Table-Form:%s]\nx : 0 1 2 3 4\ny : 1 1 1 1 1\n\n" % name
+  custom = "[Potential-Form]\n%s%s(r) = 2.0\n\n" % ("unrelated(r, A) = A*r\n" if crowded else "", name) if second_kind == 0 else (
+    "[Potential-Form]\nunrelated(r, A) = A*r\n\n" if crowded else "")
+  if crowded:
+    # the clashing definitions are not the first of their kind in the file
+    table = "[Table-Form:zz_other]\nx : 0 1 2 3 4\ny : 3 3 3 3 3\n\n" + table
+  body = (table + custom) if table_first else (custom + table)
+  return HEAD % "LAMMPS" + "[Pair]\nA-B : %s\n\n" % name + body
+
+
+def _kinds_ok(name, second_kind, table_first, crowded=False):
   """a table form called `name` together with (0) a custom form of the same name, (1) nothing else:
   a name may denote one thing only - a table form called like a custom form or a built-in form is a duplicate"""
-  table = "[Table-Form:%s]\nx : 0 1 2 3 4\ny : 1 1 1 1 1\n\n" % name
-  custom = "[Potential-Form]\n%s(r) = 2.0\n\n" % name if second_kind == 0 else ""
-  body = (table + custom) if table_first else (custom + table)
-  text = HEAD % "LAMMPS" + "[Pair]\nA-B : %s\n\n" % name + body
+  text = _kinds_text(name, second_kind, table_first, crowded)
   st, x = outcome(text)
   builtin = name.startswith("as.") or name.startswith("pymath.")
   if second_kind == 0 and "." in name:
@@ -235,6 +243,19 @@ def form_kinds(name: int, second_kind: int, table_first: bool) -> bool:
   tf = True if table_first else False
   with untraced():
     return _kinds_ok(n, k, tf)
+
+
+def form_kinds_crowded(name: int, second_kind: int, table_first: bool) -> bool:
+  """
+  pre: 0 <= name < 6 and 0 <= second_kind < 2
+  post: _
+  """
+  # the same with an unrelated table form and an unrelated custom form defined first
+  n = concrete(KIND_NAMES[name])
+  k = 0 if second_kind == 0 else 1
+  tf = True if table_first else False
+  with untraced():
+    return _kinds_ok(n, k, tf, True)
 
 
 # ---------------------------------------------------------------------------
@@ -403,12 +424,9 @@ def _rp_headers(h1, h2):
   return c, d, "table-header-" + k
 
 
-def _rp_kinds(name, second_kind, table_first):
+def _rp_kinds(name, second_kind, table_first, crowded=False):
   n = KIND_NAMES[name]
-  table = "[Table-Form:%s]\nx : 0 1 2 3 4\ny : 1 1 1 1 1\n\n" % n
-  custom = "[Potential-Form]\n%s(r) = 2.0\n\n" % n if second_kind == 0 else ""
-  body = (table + custom) if table_first else (custom + table)
-  text = HEAD % "LAMMPS" + "[Pair]\nA-B : %s\n\n" % n + body
+  text = _kinds_text(n, second_kind, table_first, crowded)
   builtin = n.startswith("as.") or n.startswith("pymath.")
   c, d, k = _describe(text, second_kind == 0 or builtin)
   return c, d, "kinds-%s-%s" % ("table+custom" if second_kind == 0 else "table-named-like-builtin", k)
@@ -447,4 +465,4 @@ def _after_other_model(rp):
   return run
 
 
-REPLAY = dict((k_, _after_other_model(v_)) for k_, v_ in dict(added_duplicates=_rp_added, form_signatures3=_rp_forms3, pair_keys3=_rp_pairs3, pair_keys=_rp_pair, density_keys_fs=_rp_density, embed_keys=_rp_embed, form_signatures=_rp_forms, table_form_headers=_rp_headers, form_kinds=_rp_kinds).items())
+REPLAY = dict((k_, _after_other_model(v_)) for k_, v_ in dict(added_duplicates=_rp_added, form_signatures3=_rp_forms3, pair_keys3=_rp_pairs3, pair_keys=_rp_pair, density_keys_fs=_rp_density, embed_keys=_rp_embed, form_signatures=_rp_forms, table_form_headers=_rp_headers, form_kinds=_rp_kinds, form_kinds_crowded=lambda name, second_kind, table_first: _rp_kinds(name, second_kind, table_first, True)).items())
